@@ -190,8 +190,15 @@ def apply_fault(sm, spec, fault, pick):
             if len(lookup(decls, port['type'], enc['scope'])) != 1:
                 return None
         else:
-            if not _ambiguate(model, port['type'], enc['scope'],
-                              {'k': 'interface', 'name': ['x'], 'types': [], 'events': []}):
+            dup = [{'k': 'interface', 'name': ['x'], 'types': [], 'events': []},
+                   {'k': 'subint', 'name': ['x'], 'lo': 0, 'hi': 1},
+                   {'k': 'system', 'name': ['x'], 'ports': [], 'instances': [], 'bindings': []},
+                   {'k': 'enum', 'name': ['x'], 'fields': ['A']},
+                   {'k': 'component', 'name': ['x'], 'ports': []},
+                   {'k': 'extern', 'name': ['x'], 'value': 'int'},
+                   {'k': 'foreign', 'name': ['x'], 'ports': []}][pick % 7]
+            # any second declaration on the chain makes the reference ambiguous, whatever its kind
+            if not _ambiguate(model, port['type'], enc['scope'], dup):
                 return None
         return sm, spec
     if fault.startswith('formal_'):
@@ -224,8 +231,12 @@ def apply_fault(sm, spec, fault, pick):
             if len(lookup(decls, f['type'], p['itf']['fqn'])) != 1:
                 return None
         else:
-            if not _ambiguate(model, f['type'], p['itf']['fqn'],
-                              {'k': 'extern', 'name': ['x'], 'value': 'int'}):
+            dup = [{'k': 'extern', 'name': ['x'], 'value': 'int'},
+                   {'k': 'subint', 'name': ['x'], 'lo': 0, 'hi': 1},
+                   {'k': 'enum', 'name': ['x'], 'fields': ['A']},
+                   {'k': 'system', 'name': ['x'], 'ports': [], 'instances': [], 'bindings': []},
+                   {'k': 'component', 'name': ['x'], 'ports': []}][pick % 5]
+            if not _ambiguate(model, f['type'], p['itf']['fqn'], dup):
                 return None
         return sm, spec
     if fault.startswith('sel_'):
